@@ -7,6 +7,7 @@ from ..core import AnalysisError, Undecided
 from .. import e1_model as e1
 from .. import e2_regex as e2
 from .common import norm, calls_in, rule_construct
+from . import strterms as st_
 
 SEP_CATS = {"Zs", "Zl", "Zp", "Cc", "Cf", "Cs", "Co", "Cn", "Ps", "Pe"}
 SEP_CHARS = {ord(","), ord(";")}
@@ -80,10 +81,16 @@ def check(ctx, rep, tier):
                         "" if v else "does not hold: normalising twice can differ from normalising once")
     # normalised text reaches _ctparse
     gen = cm.func("ctparse_gen")
-    ok = any(c.args and isinstance(c.args[0], ast.Call) and e1.callee_name(c.args[0].func) == "_preprocess_string"
-             for c in calls_in(gen, "_ctparse"))
-    rep.add("normalised-input", cm.rel + "::ctparse_gen::_ctparse(_preprocess_string(txt))", cm.where(gen), ok,
-            "" if ok else "the search is not run on the normalised text")
+    states = st_.search_input_state(cm, gen)
+    c_ = cm.rel + "::ctparse_gen::_ctparse(_preprocess_string(txt))"
+    if not states or any(x == "?" for x in states):
+        rep.undecided("normalised-input", c_, cm.where(gen), "what text the search is called on is not recognised")
+    else:
+        ok = all(x in ("norm", "stripped") for x in states)
+        rep.add("normalised-input", c_, cm.where(gen), ok,
+                "" if ok else ("labels are cut out of the raw text before it is normalised: where a label ends "
+                               "then depends on which dash or separator variant follows it"
+                               if "norm-of-stripped" in states else "the search is not run on the normalised text"))
     _case(ctx, rep)
     rep.assume("unicodedata of the running interpreter classifies code points as the regex engine does "
                "(both follow the Unicode character database)")
